@@ -96,6 +96,8 @@ def r_twf64(F, cfg):
     if b is None:
         R.violation("anchor:compute_twiddle", "src/twiddles.rs", "twiddles::compute_twiddle not found")
         return R
+    from .inline import inlined
+    b = inlined(F, b)        # private helpers (e.g. an extracted `twiddle_angle`) are judged as part of the function
     # no f32 anywhere in the function
     for i, t in enumerate(b.locals):
         ts = F.ts(t)
@@ -172,9 +174,16 @@ def r_twf64(F, cfg):
     # twiddle factor of every algorithm comes out of the function checked above
     TRIG = ("::sin", "::cos", "::sin_cos", "::tan", "::exp", "::exp2", "::powf", "::sinh", "::cosh", "::atan2", "::from_polar", "::cis")
     outside = 0
+    orig_id = b.id
+    helper_names = set(b.r.get("inlined", []))
+    callers = F.callers()
     for ob in F.bodies.values():
-        if (F.closure_parent(ob) or ob) is b:
+        root_ob = F.closure_parent(ob) or ob
+        if root_ob.id == orig_id:
             continue
+        if root_ob.name in helper_names and all((F.closure_parent(cb) or cb).id == orig_id or (F.closure_parent(cb) or cb).name in helper_names
+                                                for (cb, _bi, _t) in callers.get(root_ob.id, [])):
+            continue        # a private helper of compute_twiddle, judged above as part of it
         for bi, t in ob.calls():
             c = F.callee_of(t)
             if not c or c["local"]:
@@ -214,6 +223,8 @@ def r_bluemod(F, cfg):
     if b is None:
         R.violation("anchor:fill_bluesteins_twiddles", "src/twiddles.rs", "twiddles::fill_bluesteins_twiddles not found")
         return R
+    from .inline import inlined
+    b = inlined(F, b)        # private helpers and the closures handed to them are judged as part of the function
     twice = None
     n = 0
 
